@@ -30,7 +30,7 @@ def pick(rng, xs):
 # --------------------------------------------------------------------------------------------------
 SEPS = ['=', ';', ',', '-', ':', '&', '/', ' ', '"', "'", '?', '*', '.', '%']
 MUTATIONS = ['truncate', 'duplicate', 'wrongsep', 'dropsep', 'badnumber', 'quote', 'dropquote', 'oversize',
-             'badcharset', 'insert', 'ctl', 'encword', 'case', 'empty', 'space', 'byteclass', 'byteclass']
+             'badcharset', 'insert', 'ctl', 'encword', 'case', 'empty', 'space', 'byteclass', 'byteclass', 'many']
 
 
 def mutate(rng, s, kind=None):
@@ -105,6 +105,15 @@ def mutate(rng, s, kind=None):
     if kind == 'space':
         i = rng.randrange(n + 1)
         return s[:i] + pick(rng, [' ', '  ', '\t', ' \t ']) + s[i:]
+    if kind == 'many':
+        # count-based limits: one item of a separator-delimited element repeated up to a few thousand times
+        seps = [c for c in '&;,' if c in s] or ['&', ',', ';']
+        sep = pick(rng, seps)
+        items = s.split(sep)
+        item = pick(rng, items)[:12]
+        count = pick(rng, [99, 100, 101, 255, 256, 999, 1000, 1001, 1023, 1024, 1025, 4999])
+        count = min(count, 30000 // (len(item) + 1))
+        return sep.join(items + [item] * count)
     if kind == 'byteclass':
         # one token (maximal run of token characters) of the element goes through a byte class
         runs, i = [], 0
@@ -163,8 +172,15 @@ def gen_encoded_word(rng):
                       '=?%s?%s?%s' % (cs, enc, txt), '=?%s*en?%s?%s?=' % (cs, enc, txt)])
 
 
+MANY = [100, 255, 256, 999, 1000, 1001, 1024, 2000]      # count-based limits (fields, elements, parts, cookies)
+
+
 def gen_qs(rng):
     kind = rng.random()
+    if kind > 0.96:
+        n = pick(rng, MANY)
+        return pick(rng, ['&' * n, ';' * n, '&'.join('k%d=%d' % (i, i) for i in range(n)), '&'.join(['a=1'] * n), 'a=1&' * n,
+                          '&'.join(['a'] * n), '=' * n, '&='.join(['x'] * n)])
     if kind < 0.15:
         return pick(rng, ['%d,%d' % (rng.randrange(1000), rng.randrange(1000)), '1,2x', '1,2=v', '1,', ',2', '1,2,3',
                           '\xb2,3', '1,\xb3', '9' * 4400 + ',1', '1,' + '9' * 5000, '1;2', ' 1,2', '1,2 ', '01,02',
@@ -185,7 +201,8 @@ def gen_range(rng):
         return pick(rng, ['%d-%d' % (min(a, b), max(a, b)), '%d-' % a, '-%d' % b, '%d-%d' % (max(a, b) + 1, min(a, b)),
                           '-', '%d' % a, '-0', '0-0', '%d-%d' % (a + 500, a + 600), '0-99999999999999999999'])
     unit = pick(rng, ['bytes'] * 8 + ['Bytes', 'chars', '', ' bytes '])
-    return unit + '=' + pick(rng, [', ', ',', ',', ' ,'])[0:2].join(spec() for _ in range(rng.choice([1, 1, 1, 2, 3, 12])))
+    count = pick(rng, MANY) if rng.random() < 0.03 else rng.choice([1, 1, 1, 2, 3, 12])
+    return unit + '=' + pick(rng, [', ', ',', ',', ' ,'])[0:2].join(spec() for _ in range(count))
 
 
 def gen_etag_list(rng):
@@ -195,7 +212,7 @@ def gen_etag_list(rng):
 
 def gen_accept(rng, values):
     els = []
-    for _ in range(rng.choice([1, 1, 2, 3, 5])):
+    for _ in range(pick(rng, MANY[:6]) if rng.random() < 0.02 else rng.choice([1, 1, 2, 3, 5])):
         v = pick(rng, values)
         r = rng.random()
         if r < 0.5:
@@ -218,10 +235,11 @@ LANGS = ['en', 'en-US', 'de', '*', 'x' * 50, 'e\xf1']
 
 def gen_cookie(rng):
     sid = hashlib.sha1(str(rng.random()).encode()).hexdigest()
-    sidv = pick(rng, [sid, sid, sid[:10], '', '../../etc/passwd', '/abs', 'a' * 300, 'a' * 5000, 'x\x00y', '..', '.',
+    sidv = pick(rng, [sid, sid, sid[:10], '', '../../etc/passwd', '/abs', 'x/../../y', '"x/../../y"', 'x/../y', 'x/..',
+                      'x/../../../../tmp/y', '/../../y', 'x/..//../y', 'x\\..\\..\\y', sid + '/../../' + sid, 'a' * 300, 'a' * 5000, 'x\x00y', '..', '.',
                       'a/b', 'a\\b', 'caf\xe9', '"' + sid + '"', sid + ';', '%2e%2e', 'con', 'a b', '\x7f'])
     parts = []
-    for _ in range(rng.choice([0, 1, 2])):
+    for _ in range(pick(rng, MANY[:6]) if rng.random() < 0.02 else rng.choice([0, 1, 2])):
         parts.append(pick(rng, ['a=b', 'x="y z"', 'k=', '=v', 'novalue', 'a=b=c', 'k="unterminated', 'bad name=1',
                                 'n\xe4=1', 'a,b=1', '$Version=1', 'path=/', 'expires=x', 'a=\x01', 'k[]=1', 'a:b=1',
                                 'k="\\"', 'secure', 'a="b;c"', '{x}=1', 'a=(b)', 'a@b=c']))
@@ -251,7 +269,7 @@ def gen_basic(rng):
 
 
 def md5hex(s):
-    return hashlib.md5(s.encode('utf-8')).hexdigest()
+    return hashlib.md5(s.encode('utf-8', 'surrogatepass')).hexdigest()
 
 
 def gen_digest(rng, method, uri, realm, key, now=None):
@@ -319,6 +337,9 @@ def gen_content_type(rng, base=None):
 
 
 def gen_urlencoded(rng):
+    if rng.random() < 0.03:
+        n = pick(rng, MANY)
+        return pick(rng, ['&' * n, '&'.join('k%d=%d' % (i, i) for i in range(n)), '&'.join(['a=1'] * n), ';'.join(['a=1'] * n)])
     pairs = []
     for _ in range(rng.choice([0, 1, 1, 2, 3, 8])):
         k = pick(rng, ['a', 'b', 'key', 'n\xe4me', 'k%20', '', 'a..b', 'xn--a', '%ff', '\xff'])
@@ -366,7 +387,7 @@ def gen_multipart(rng, boundary):
     out = []
     if rng.random() < 0.15:
         out.append(pick(rng, [b'preamble\r\n', b'\r\n', b'--\r\n', b'x' * 200 + b'\r\n']))
-    nparts = rng.choice([0, 1, 1, 2, 3])
+    nparts = pick(rng, [100, 999, 1000, 1001]) if rng.random() < 0.015 else rng.choice([0, 1, 1, 2, 3])
     for _ in range(nparts):
         out.append(b'--' + b + pick(rng, [b'\r\n'] * 8 + [b'\n', b'  \r\n', b'\t\r\n']))
         hdrs = []
@@ -653,7 +674,9 @@ PROTOS = ['HTTP/1.1', 'HTTP/1.0']
 
 # texts that leave ISO-8859-1 once the framework has decoded them (raw UTF-8 in the request line, RFC 2047 in headers)
 WIDE = ['\u20ac', '\u043a\u043b\u044e\u0447', '\u65e5\u672c', '\U0001f600', '\xe9\u20ac', 'a\u0301', '\u2028', '\ufeff',
-        '\u0663', '\u0130', '\uff15', '\u0100']
+        '\u0663', '\u0130', '\uff15', '\u0100',
+        # lone surrogates: reachable through `=?utf-7?q?+2AA-?=`; text nothing can be encoded from again
+        '\ud800', 'a\udfffb']
 
 
 def wire(text):
@@ -662,7 +685,14 @@ def wire(text):
 
 
 def word(text, enc='b', charset='utf-8'):
-    """`text` as one RFC 2047 encoded word."""
+    """`text` as one RFC 2047 encoded word.  Text with lone surrogates travels as utf-7 (a codec that decodes to
+    them; unicode_escape and raw_unicode_escape do as well)."""
+    if any(0xD800 <= ord(c) <= 0xDFFF for c in text) and charset == 'utf-8':
+        charset = 'utf-7'
+    if enc == '7':
+        enc, charset = 'q', 'utf-7'
+    elif enc == 'e':
+        enc, charset = 'q', 'unicode_escape'
     raw = text.encode(charset, 'replace')
     if enc == 'q':
         body = ''.join(chr(b) if (48 <= b <= 57 or 65 <= b <= 90 or 97 <= b <= 122) else '=%02X' % b for b in raw)
@@ -765,7 +795,7 @@ def build_digest(spec, caps, method, uri):
     hdr = spec.get('scheme', 'Digest ') + spec.get('sep', ', ').join(items) + spec.get('tail', '')
     if spec.get('wire') == 'utf8':
         try:
-            hdr = hdr.encode('utf-8').decode('latin-1')
+            hdr = hdr.encode('utf-8', 'surrogatepass').decode('latin-1')
         except UnicodeError:
             pass
     if spec.get('word'):
@@ -877,7 +907,7 @@ def basic_cases(rng):
             out.append(c)
     for w in WIDE:
         for enc in ('b', 'q'):
-            b64 = base64.b64encode(('user:' + w).encode('utf-8')).decode('ascii')
+            b64 = base64.b64encode(('user:' + w).encode('utf-8', 'surrogatepass')).decode('ascii')
             out.append(_base('basic2', 'GET', '/basic', pick(rng, PROTOS), [['Authorization', 'Basic ' + b64]]))
             out.append(_base('basic2', 'GET', '/basic', pick(rng, PROTOS), [['Authorization', 'Basic ' + w, enc]]))
     return out
@@ -886,7 +916,8 @@ def basic_cases(rng):
 # ---- sessions with presented ids ---------------------------------------------------------------------
 SID_TEMPLATES = ['session_id={{sid}}', 'session_id="{{sid}}"', 'session_id={{sid}}; session_id=x',
                  'session_id=x; session_id={{sid}}', 'a=b; session_id={{sid}}; c=d', 'session_id={{sid}}\xe9',
-                 'session_id={{sid}}/../x', 'session_id=../{{sid}}', 'session_id={{sid}} ', 'SESSION_ID={{sid}}',
+                 'session_id={{sid}}/../x', 'session_id=../{{sid}}', 'session_id={{sid}}/../../x',
+                 'session_id="{{sid}}/../../{{sid}}"', 'session_id=x/../../session-{{sid}}', 'session_id={{sid}} ', 'SESSION_ID={{sid}}',
                  '$Version=1; session_id={{sid}}; $Path=/', 'session_id={{sid}}{{sid}}', 'session_id={{sid}}\x00',
                  'session_id={{sid}}.lock', 'session_id=session-{{sid}}', 'session_id={{sid}}; bad name=1',
                  'session_id={{sid}}, x=y', 'session_id={{sid}}; \xe9=1', 'session_id=%s' % ('{{sid}}' * 40),
@@ -1027,7 +1058,7 @@ def reflect_case(rng, path, kind, proto, src, method, w):
         hs.append(['X-Next', w, pick(rng, ['b', 'q'])])
     elif src == 'body':
         method = 'POST'
-        body = pick(rng, ['to=', 'q=', '']) + ''.join('%%%02X' % b for b in w.encode('utf-8'))
+        body = pick(rng, ['to=', 'q=', '']) + ''.join('%%%02X' % b for b in w.encode('utf-8', 'surrogatepass'))
     c = _base('reflect:' + kind, method, p, proto, hs, qs=qs, body=body)
     if nohost:
         c['headers'] = c['headers'][1:]
